@@ -27,3 +27,7 @@ claim('C03',
 claim('C10',
   'bounded model checking of the real Start/Step/Get code with the block cipher as an uninterpreted function: for every length tuple inside the bound (complete enumeration by the driver) the chunked / get-then-continue / relocated run equals the one-shot run for ALL data, keys and IVs',
   'trusted: CBMC, stubs/belt_block_uf*.c (uninterpreted cipher: weaker than the real one, so proved equalities transfer); key length fixed to 32 in chunking instances', 'DESIGN.md 3/C10')
+
+claim('C05',
+  'bounded model checking of the real zz units against exact integer values (unsigned __int128 / division-free relations): add/sub/compare family at 16/32/64-bit words, modular add/sub/neg/double/half in both editions for every modulus > 1, word division, Montgomery/Crandall reductions SAFE == FAST and fully reduced at 16-bit words; multiplication/division/Barrett lemmas in the thorough tier (reported UNDECIDED when the solver does not finish)',
+  'trusted: CBMC, reference arithmetic of the harness; the 16-bit word configuration is reached through the BEE2_VERIF_WORD hook and run without signed-overflow checks', 'DESIGN.md 3/C05')
